@@ -223,6 +223,11 @@ def run_job(job):
             events.append(base)
         except (K.EncodeError, OverflowError, ValueError, ZeroDivisionError) as e:
             skipped.append([eid, kind, str(e)[:80]])
+        except Exception as e:   # noqa: BLE001
+            # the preparation of a case uses the library too (products, squared norms): an unexpected exception there is
+            # an observation about the library, not a harness failure
+            base['raised'] = type(e).__name__
+            events.append(base)
     K.write_trace(job['out'], {'kind': 'cfg', 'u': u, 'opts': full_opts(opts)}, events)
     return {'out': job['out'], 'events': len(events), 'skipped': skipped}
 
